@@ -2,13 +2,18 @@ pub mod common;
 pub mod captured;
 pub mod c01;
 pub mod c04;
+pub mod c05;
 pub mod c06;
 pub mod c07;
 pub mod c08;
 pub mod c10;
 pub mod c12;
 pub mod c13;
+pub mod c14;
 pub mod c15;
+pub mod c16;
+pub mod c17;
+pub mod c18;
 pub mod c19;
 pub mod c20;
 
@@ -20,6 +25,7 @@ pub fn families_of(property: &str) -> Option<Vec<Box<dyn Family>>> {
         "C02" => captured::families(captured::Focus::C02),
         "C03" => captured::families(captured::Focus::C03),
         "C04" => c04::families(),
+        "C05" => c05::families(),
         "C06" => c06::families(),
         "C07" => c07::families(),
         "C08" => c08::families(),
@@ -32,7 +38,11 @@ pub fn families_of(property: &str) -> Option<Vec<Box<dyn Family>>> {
         "C11" => captured::families(captured::Focus::C11),
         "C12" => c12::families(),
         "C13" => c13::families(),
+        "C14" => c14::families(),
         "C15" => c15::families(),
+        "C16" => c16::families(),
+        "C17" => c17::families(),
+        "C18" => c18::families(),
         "C19" => c19::families(),
         "C20" => c20::families(),
         _ => return None,
